@@ -103,3 +103,54 @@ func diffBytes(a, b []byte) string {
 	}
 	return strings.Join(out, ",")
 }
+
+func TestScratchMinimal(t *testing.T) {
+	if os.Getenv("C10B_SCRATCH") != "3" {
+		t.Skip("dev only")
+	}
+	wire := "0700" + "0000" + "0000" + "0000" + "01"
+	pol3 := "0200" + "0000" + "0300" + wire + wire + wire
+	cases := map[string]string{
+		"empty":            "",
+		"5 bytes":          "0000000000",
+		"formula.go:81":    "0000" + "0800" + "0600" + "0400" + "0000" + "0100",
+		"policy.go:241":    "0000" + "0800" + "0600" + "0400" + "ffff" + "0000",
+		"policy.go:250":    "0000" + "0a00" + "0800" + "0600" + "0200" + "0000" + "0100",
+		"policy.go:253":    "0000" + "0c00" + "0a00" + "0800" + "0200" + "0000" + "0100" + "ffff",
+		"tk.go:413":        "0000" + "1000" + "0e00" + "0600" + "0200" + "0000" + "0000" + "0400" + "00000000",
+		"tk.go:432":        "0000" + "1200" + "1000" + "0600" + "0200" + "0000" + "0000" + "0400" + "00000000" + "0000",
+		"formula.go:193":   "0000" + "2f00" + "2d00" + "2100" + pol3 + "0400" + "00000000" + "0000" + "0000",
+	}
+	var names []string
+	for n := range cases {
+		names = append(names, n)
+	}
+	sort.Strings(names)
+	for _, n := range names {
+		in, err := hexDecode(cases[n])
+		if err != nil {
+			t.Fatal(err)
+		}
+		for _, en := range []string{"tkn20.Policy.ExtractFromCiphertext", "tkn20.Attributes.CouldDecrypt", "tkn20.AttributeKey.Decrypt"} {
+			e := entryByName(en)
+			p, st := vlib.Catch(func() { e.Call(in) })
+			site := ""
+			for _, l := range strings.Split(st, "\n") {
+				if m := siteRe.FindStringSubmatch(l); m != nil && !strings.Contains(l, "zz_verif") {
+					site = m[1] + ":" + m[2]
+					break
+				}
+			}
+			t.Logf("%-16s %-36s %d bytes %s -> %v %s", n, en, len(in), cases[n], p, site)
+		}
+	}
+}
+
+func hexDecode(s string) ([]byte, error) {
+	b := make([]byte, len(s)/2)
+	_, err := fmt.Sscanf(s, "%x", &b)
+	if len(s) == 0 {
+		return []byte{}, nil
+	}
+	return b, err
+}
